@@ -39,7 +39,7 @@ def small_ruleset(rng, markov_pos=None, rich=False, wide=False):
     # groups with several values of equal probability: one pre-terminal then expands to several guesses, so a quit can arrive
     # in the middle of a pre-terminal
     spec = {'terminals': {'D1': [['3', '0.4'], ['1', '0.3'], ['2', '0.3']], 'A2': [['ab', '0.35'], ['cd', '0.35'], ['ef', '0.3']],
-                          'C2': [['LL', '0.9'], ['UL', '0.1']], 'O1': [['!', '0.5'], ['#', '0.25'], ['$', '0.25']]},
+                          'C2': [['LL', '0.9'], ['UL', '0.1']], 'O1': [['!', '0.5'], ['%', '0.25'], ['$', '0.25']]},      # `%`: a character config-file interpolation treats specially
             'grammar': [['A2D1', '0.45'], ['D1O1', '0.17'], ['D1', '0.03']], 'omen_prob': [['1', '0.5'], ['2', '0.3']], 'omen': om}
     if rich:
         a, b = rng.choice([1, 2]), rng.choice([3, 4])
